@@ -22,7 +22,10 @@ CLAIM = {
             "EnforcementState is installed unmodified; (R11.3) BackupPersister forwards every write to main (when "
             "ready, error propagated) and to backup with the same arguments and reads from exactly one side; "
             "(R11.4) no change of the in-memory allowlist can be followed by a refusal (running == restorable also on "
-            "error returns; the other durable classes are C10 R10.1). Does not decide value equality after a JSON round trip nor the cloud prepare/commit window (C16).",
+            "error returns; the other durable classes are C10 R10.1); (R11.5) writer, deleter and readers of each stored class in "
+            "KVVPersister build the storage key from the same prefix constant, the node id and - for channels - the "
+            "channel's initial id (id0 of the stub / of the channel, the id the restore path looks up and parses back), and "
+            "the prefixes of different classes differ. Does not decide value equality after a JSON round trip nor the cloud prepare/commit window (C16).",
     "note": "storage layer below Persist trusted; serde derive honours attributes; CHA for dyn Persist",
     "technique": "static analysis: persist-before-acknowledge dataflow (mutation summaries + must-pass persister completion) "
                  "+ persist/restore sibling agreement",
@@ -66,6 +69,7 @@ def run(ctx):
     r112(ctx)
     r113(ctx)
     r114(ctx)
+    r115(ctx)
 
 
 def r111(ctx):
@@ -378,3 +382,85 @@ def r114(ctx):
                    f"(error exit at line {x['line']}) before persisting: the running signer's allowlist then differs from "
                    f"what a restart restores", where=f"{b.file}:{ln}")
     ctx.floor("R11.4", "Node methods changing the allowlist", n, 3)
+
+
+# ---------------------------------------------------------------------------- R11.5 storage keys agree
+KEY_CLASS = {
+    # method of `impl Persist for KVVPersister` -> (class, role, what the last key component must be built from)
+    "new_channel": ("channel", "write", "field:id0"), "update_channel": ("channel", "write", "field:id0"),
+    "delete_channel": ("channel", "write", "param:channel_id"), "get_channel": ("channel", "read", "param:channel_id"),
+    "get_node_channels": ("channel", "scan", None),
+    "new_node": ("node-entry", "write", None), "update_node": ("node-state", "write", None),
+    "get_nodes": ("node-state", "read", None),
+    "update_tracker": ("tracker", "write", None), "get_tracker": ("tracker", "read", None),
+    "update_node_allowlist": ("allowlist", "write", None), "get_node_allowlist": ("allowlist", "read", None),
+}
+
+
+def r115(ctx):
+    ctx.rule("R11.5", "KVVPersister: the key a class is written under is the key it is deleted and read back under "
+                      "(same prefix constant, node id, and for channels the initial id id0)")
+    p = ctx.prog
+    seen = {}
+    nsites = 0
+    for b in sorted(p.bodies.values(), key=lambda x: x.name):
+        if b.d.krate != "vls_persist" or "KVVPersister" not in b.name or "{closure" in b.name or "Persist>::" not in b.name:
+            continue
+        m = b.name.rsplit("::", 1)[-1]
+        fv = fnview(ctx, b, policy=False)
+        calls = R.call_blocks(fv, lambda n: n.endswith("kvv::make_key") or n.endswith("kvv::make_key2"))
+        if m not in KEY_CLASS:
+            # delete_node and any new method: every key it builds must use a prefix some table row knows (checked below)
+            for bi, ln, c in calls:
+                seen.setdefault(("other", m), []).append((render(fv.expr(c.args[0])), b, ln))
+            continue
+        cls, role, last = KEY_CLASS[m]
+        ctx.ob("R11.5", len(calls) >= 1, f"{m}/builds-key", f"KVVPersister::{m} no longer builds its storage key with make_key/make_key2",
+               where=f"{b.file}:{b.line}")
+        for bi, ln, c in calls:
+            nsites += 1
+            args = [render(fv.expr(a)) for a in c.args]
+            seen.setdefault((cls, m), []).append((args[0], b, ln))
+            if m != "get_nodes":
+                ctx.ob("R11.5", "node_id" in args[1], f"{m}/node-component",
+                       f"KVVPersister::{m} builds its key from `{args[1][:80]}` instead of the node id", where=f"{b.file}:{ln}",
+                       sample=args[1][:60])
+            if last and len(args) >= 3:
+                kind, nm = last.split(":")
+                e = fv.expr(c.args[2])
+                from engine.cfg import subexprs
+                subs = list(subexprs(e))
+                if kind == "field":
+                    # `<param>.id0` handed to as_slice: a field read of id0, and no call in between (id() picks the permanent id)
+                    ok = any(x[0] == "field" and str(x[-1]).endswith("id0") for x in subs) or args[2].rstrip(")").endswith(".id0")
+                    ok = ok and not any(x[0] == "call" and not x[1].endswith("::as_slice") and not x[1].endswith("::deref")
+                                        and not x[1].endswith("::as_ref") for x in subs)
+                else:
+                    ok = any(x[0] == "param" and x[1] == nm for x in subs) and \
+                        not any(x[0] == "call" and not x[1].endswith("::as_slice") and not x[1].endswith("::deref") for x in subs)
+                ctx.ob("R11.5", ok, f"{m}/channel-component",
+                       f"KVVPersister::{m} keys the channel entry by `{args[2][:100]}` (expected the initial channel id "
+                       f"{'`.id0`' if kind == 'field' else 'given by the caller'}): the entry is written under a key the restore "
+                       "path and the sibling methods do not use, so a restart finds a stale or missing channel",
+                       where=f"{b.file}:{ln}", sample=args[2][:80])
+    ctx.floor("R11.5", "storage keys built in KVVPersister's Persist methods", nsites, 12)
+    # per class: one prefix
+    by_cls = {}
+    for (cls, m), lst in seen.items():
+        for pre, b, ln in lst:
+            by_cls.setdefault(cls, {}).setdefault(pre, []).append((m, b, ln))
+    for cls, pres in sorted(by_cls.items()):
+        if cls == "other":
+            known = {pre for c2, d in by_cls.items() if c2 != "other" for pre in d}
+            for pre, lst in pres.items():
+                for m, b, ln in lst:
+                    ctx.ob("R11.5", pre in known, f"{m}/prefix-known",
+                           f"KVVPersister::{m} uses the key prefix {pre}, which no writer/reader pair uses", where=f"{b.file}:{ln}")
+            continue
+        ctx.ob("R11.5", len(pres) == 1, f"class/{cls}/one-prefix",
+               f"the {cls} entry is written, deleted and read under different key prefixes: "
+               f"{ {pre: sorted({m for m, _, _ in lst}) for pre, lst in pres.items()} }",
+               where="vls-persist/src/kvv.rs", sample=f"{cls}: {sorted(pres)}")
+    firsts = {cls: sorted(pres)[0] for cls, pres in by_cls.items() if cls != "other" and pres}
+    ctx.ob("R11.5", len(set(firsts.values())) == len(firsts), "classes/distinct-prefixes",
+           f"two stored classes share a key prefix: {firsts}", where="vls-persist/src/kvv.rs", sample=str(firsts))
